@@ -9,6 +9,7 @@ require (
 	github.com/ipfs/go-log/v2 v2.9.2
 	github.com/ipld/go-ipld-prime v0.24.0
 	github.com/libp2p/go-libp2p v0.48.0
+	github.com/multiformats/go-multihash v0.2.3
 	go.opentelemetry.io/otel/trace v1.44.0
 )
 
@@ -33,7 +34,6 @@ require (
 	github.com/multiformats/go-multiaddr v0.16.1 // indirect
 	github.com/multiformats/go-multibase v0.3.0 // indirect
 	github.com/multiformats/go-multicodec v0.10.0 // indirect
-	github.com/multiformats/go-multihash v0.2.3 // indirect
 	github.com/multiformats/go-multistream v0.6.1 // indirect
 	github.com/multiformats/go-varint v0.1.0 // indirect
 	github.com/polydawn/refmt v0.90.0 // indirect
